@@ -215,19 +215,26 @@ func c09Directed() [][]string {
 		{ // what a crashed filesystem-store transaction leaves behind (made by hand)
 			"op mkb b0", p("b0", "k0", "survivor", ""), "leftovers", "quiesce", "checkleftovers",
 		},
-		func() []string { // more aged parts than one sweep batch of the collector (256): orphans that stay
-			// behind 256 and behind 513 live parts sit exactly at the batch boundaries on every pass
-			ls := []string{"op mkb b0"}
-			for i := 0; i < 256; i++ {
-				ls = append(ls, p("b0", fmt.Sprintf("big%03d", i), fmt.Sprintf("live-%03d", i), ""))
-			}
-			ls = append(ls, "orphan 0", "orphan 0", "orphan 1")
-			for i := 256; i < 512; i++ {
-				ls = append(ls, p("b0", fmt.Sprintf("big%03d", i), fmt.Sprintf("live-%03d", i), ""))
-			}
-			return append(ls, "orphan 0", "orphan 0", "quiesce")
-		}(),
 	}
+}
+
+// c09BatchBoundary: more aged parts than one sweep batch of the collector (256): orphans that stay
+// behind 256 and behind 512 live parts sit at and after the batch boundaries on every pass. Run last
+// (after all other cases) so that the case numbering, and with it every other case's seed, is unchanged.
+func c09BatchBoundary() []string {
+	h := verifx.HexS
+	p := func(b, k, body string) string {
+		return fmt.Sprintf("op put %s %s %s ct=~ md=~ tags=~ cls=~ inm=0 im=~", b, k, h(body))
+	}
+	ls := []string{"op mkb b0"}
+	for i := 0; i < 256; i++ {
+		ls = append(ls, p("b0", fmt.Sprintf("big%03d", i), fmt.Sprintf("live-%03d", i)))
+	}
+	ls = append(ls, "orphan 0", "orphan 0", "orphan 1")
+	for i := 256; i < 512; i++ {
+		ls = append(ls, p("b0", fmt.Sprintf("big%03d", i), fmt.Sprintf("live-%03d", i)))
+	}
+	return append(ls, "orphan 0", "orphan 0", "quiesce")
 }
 
 func (q *c08Seq) runC09Lines(lines []string) {
@@ -410,6 +417,21 @@ func runC09(args []string) {
 			}
 			k++
 		}
+	}
+	for _, sk := range stacks {
+		if f.Wants(k) {
+			seed := verifx.CaseSeed(f.Seed, k)
+			stk := newC08Stack(filepath.Join(f.Scratch, fmt.Sprintf("c09-%d", k)), sk, c08Grace, false, 0)
+			out.Case(k, seed)
+			out.Line("cfg kind=c09 %s gc=end grace=tiny", stk.cfgTokens())
+			q := newC08Seq(ctx, out, stk, verifx.NewRng(seed), "none")
+			q.judge = false
+			q.extras = true
+			q.runC09Lines(c09BatchBoundary())
+			out.End()
+			stk.close(false)
+		}
+		k++
 	}
 	out.Flush()
 }
